@@ -374,6 +374,11 @@ struct DeadParams {
     observe_ms: i64,
     /// the writer has its own OfferedDeadlineMissed listener: every increase must be signalled through it, once
     w_listener: bool,
+    /// source timestamps of the writes: 0 = write() (now), 1 = write_w_timestamp lagging 5 s behind the clock, 2 = one constant
+    /// timestamp for every write (added after seeded change C30-2: the deadline clock must run on the time of the write)
+    ts_mode: u8,
+    /// register_instance_w_timestamp calls: (instance, instant ms, offset of the supplied timestamp from the clock in ms)
+    registers: Vec<(u8, i64, i64)>,
 }
 
 /// expected number of missed periods of one instance at time t (ms): for each gap between consecutive samples
@@ -407,7 +412,7 @@ async fn deadline(ctx: Ctx, p: Rc<DeadParams>) {
             }
             writes.push((*id, t));
         }
-        Rc::new(DeadParams { name: p.name.clone(), period_ms: p.period_ms, writes, observe_ms: t + 260, w_listener: p.w_listener })
+        Rc::new(DeadParams { name: p.name.clone(), period_ms: p.period_ms, writes, observe_ms: t + 260, w_listener: p.w_listener, ts_mode: p.ts_mode, registers: p.registers.clone() })
     } else {
         p
     };
@@ -439,7 +444,7 @@ async fn deadline(ctx: Ctx, p: Rc<DeadParams>) {
     let mut ws = p.writes.clone();
     ws.sort_by_key(|x| x.1);
     let ids: Vec<u8> = {
-        let mut v: Vec<u8> = ws.iter().map(|x| x.0).collect();
+        let mut v: Vec<u8> = ws.iter().map(|x| x.0).chain(p.registers.iter().map(|x| x.0)).collect();
         v.sort();
         v.dedup();
         v
@@ -448,6 +453,10 @@ async fn deadline(ctx: Ctx, p: Rc<DeadParams>) {
     let (mut last_w, mut last_r) = (0i32, 0i32);
     // events: writes at their exact instants, observations on a 25 ms grid
     let mut events: Vec<(i64, Option<u8>)> = ws.iter().map(|x| (x.1, Some(x.0))).collect();
+    // registrations are encoded as ids >= 100 (100 + index into p.registers)
+    for (k, r) in p.registers.iter().enumerate() {
+        events.push((r.1, Some(100 + k as u8)));
+    }
     let mut g = 0;
     while g <= p.observe_ms {
         events.push((g, None));
@@ -456,13 +465,34 @@ async fn deadline(ctx: Ctx, p: Rc<DeadParams>) {
     events.sort_by_key(|e| (e.0, e.1.is_none()));
     // actual write instants per instance (ms since t0), as observed when the write call returned
     let mut actual: Vec<(u8, i64)> = vec![];
+    let mut registered: Vec<(u8, i64)> = vec![];
     for (at, ev) in events {
         let el = (ctx.now() - t0) / MS;
         if at > el {
             ctx.sleep_ms(at - el).await;
         }
         if let Some(id) = ev {
-            let _ = w.write(sample(id, seq, 8), None).await;
+            if id >= 100 {
+                let (rid, _, off) = p.registers[(id - 100) as usize];
+                let ts = ctx.now() + off * MS;
+                let _ = w.register_instance_w_timestamp(sample(rid, 0, 8), Time::new((ts / SEC) as i32, (ts % SEC) as u32)).await;
+                // the registration of a new instance starts its deadline clock (at the time of the call, whatever timestamp
+                // is supplied); registering a known instance is idempotent
+                // (writer side only: the reader sees samples, not registrations)
+                if !actual.iter().any(|x| x.0 == rid) && !registered.iter().any(|x| x.0 == rid) {
+                    registered.push((rid, (ctx.now() - t0) / MS));
+                }
+                continue;
+            }
+            match p.ts_mode {
+                0 => {
+                    let _ = w.write(sample(id, seq, 8), None).await;
+                }
+                m => {
+                    let ts = if m == 1 { ctx.now() - 5 * SEC } else { t0 };
+                    let _ = w.write_w_timestamp(sample(id, seq, 8), None, Time::new((ts / SEC) as i32, (ts % SEC) as u32)).await;
+                }
+            }
             actual.push((id, (ctx.now() - t0) / MS));
             seq += 1;
             continue;
@@ -482,15 +512,18 @@ async fn deadline(ctx: Ctx, p: Rc<DeadParams>) {
         };
         // expected range: everything that was due one worker period (+ slack) ago must be counted, nothing that is
         // not yet due may be counted
-        let mut lo = 0i64;
-        let mut hi = 0i64;
+        let (mut lo, mut hi, mut lo_w, mut hi_w) = (0i64, 0i64, 0i64, 0i64);
         for id in &ids {
             let times: Vec<i64> = actual.iter().filter(|x| x.0 == *id).map(|x| x.1).collect();
             lo += expected_misses(&times, el - 50 - 3, p.period_ms + 1);
             hi += expected_misses(&times, el + 3, p.period_ms - 1);
+            let mut times_w: Vec<i64> = registered.iter().filter(|x| x.0 == *id).map(|x| x.1).chain(times.iter().copied()).collect();
+            times_w.sort();
+            lo_w += expected_misses(&times_w, el - 50 - 3, p.period_ms + 1);
+            hi_w += expected_misses(&times_w, el + 3, p.period_ms - 1);
         }
-        ctx.obs(format!("t={el} offered={} requested={} expected=[{lo},{hi}]", ws_status.total_count, rs_total));
-        for (side, st_total, last) in [("writer", ws_status.total_count, &mut last_w), ("reader", rs_total, &mut last_r)] {
+        ctx.obs(format!("t={el} offered={} requested={} expected=[{lo},{hi}] writer=[{lo_w},{hi_w}]", ws_status.total_count, rs_total));
+        for (side, st_total, last, lo, hi) in [("writer", ws_status.total_count, &mut last_w, lo_w, hi_w), ("reader", rs_total, &mut last_r, lo, hi)] {
             if (st_total as i64) > hi {
                 let per = if (st_total as i64 - hi) >= 3 { "many" } else { "few" };
                 ctx.violation(format!("{side}/overcount/{per}"), format!("t={el} ms: {side} deadline-missed total_count={st_total}, at most {hi} periods can have been missed (writes at {:?}, period {} ms)", actual, p.period_ms));
@@ -569,10 +602,37 @@ pub fn c30(args: &Args) -> Vec<Scenario> {
             if w_listener && tag.starts_with("gaps") && !args.thorough() && tag != "gaps,1inst,3writes" {
                 continue;
             }
-            let p = Rc::new(DeadParams { name: format!("C30.deadline[{tag}{}]", if w_listener { ",writer-listener" } else { "" }), period_ms: period, writes: writes.clone(), observe_ms: 450, w_listener });
-            let name = p.name.clone();
-            v.push(Scenario::new(name, 99, move |ctx| deadline(ctx, p.clone())).cfg(|c| c.horizon_ms = 30_000).post(worker_sleep_oracle));
+            for ts_mode in 0..3u8 {
+                // source-timestamp modes 1 and 2 for the fixed patterns and the smallest enumerated one (all in the thorough tier)
+                if ts_mode > 0 && (w_listener || (tag.starts_with("gaps") && !args.thorough() && tag != "gaps,1inst,3writes")) {
+                    continue;
+                }
+                let p = Rc::new(DeadParams {
+                    name: format!("C30.deadline[{tag}{}{}]", if w_listener { ",writer-listener" } else { "" }, ["", ",lagging-source-timestamps", ",constant-source-timestamp"][ts_mode as usize]),
+                    period_ms: period,
+                    writes: writes.clone(),
+                    observe_ms: 450,
+                    w_listener,
+                    ts_mode,
+                    registers: vec![],
+                });
+                let name = p.name.clone();
+                v.push(Scenario::new(name, 99, move |ctx| deadline(ctx, p.clone())).cfg(|c| c.horizon_ms = 30_000).post(worker_sleep_oracle));
+            }
         }
+    }
+    // register_instance_w_timestamp with timestamps that are not the clock: a new instance, and an instance already written
+    for (tag, writes, registers) in [
+        ("register-new,old-timestamp", vec![(1u8, 250i64)], vec![(1u8, 0i64, -1_000i64)]),
+        ("register-new,future-timestamp", vec![(1, 350)], vec![(1, 0, 10_000)]),
+        ("register-new,now", vec![(1, 250)], vec![(1, 0, 0)]),
+        ("register-known,old-timestamp", vec![(1, 0), (1, 260)], vec![(1, 30, -1_000)]),
+        ("register-known,future-timestamp", vec![(1, 0), (1, 360)], vec![(1, 30, 10_000)]),
+        ("register-other-instance,old-timestamp", vec![(1, 0), (1, 80), (1, 160), (1, 240)], vec![(2, 100, -1_000)]),
+    ] {
+        let p = Rc::new(DeadParams { name: format!("C30.deadline[{tag}]"), period_ms: period, writes, observe_ms: 450, w_listener: false, ts_mode: 0, registers });
+        let name = p.name.clone();
+        v.push(Scenario::new(name, 99, move |ctx| deadline(ctx, p.clone())).cfg(|c| c.horizon_ms = 30_000).post(worker_sleep_oracle));
     }
     v
 }
@@ -610,6 +670,15 @@ async fn oversleep(ctx: Ctx, which: usize) {
             rq.deadline = DeadlineQosPolicy { period: fin(60) };
             wq.deadline = DeadlineQosPolicy { period: fin(60) };
         }
+        5 => {
+            // every periodic duty has something pending at once (seeded change C31-2 removed the cap that only matters then):
+            // reader and writer deadlines, a lifespan, a blocked write with a long max_blocking_time, a discovered participant
+            // and the next announcement
+            wq.deadline = DeadlineQosPolicy { period: fin(20_000) };
+            rq.deadline = DeadlineQosPolicy { period: fin(20_000) };
+            wq.lifespan = LifespanQosPolicy { duration: fin(20_000) };
+            wq.reliability.max_blocking_time = fin(3_000);
+        }
         _ => {
             // blocked write whose deadline passes while the worker is busy, plus a lease patched to expire
             crate::sim::with(|w| w.net.rewrite = Some(Box::new(|d| if d.meta { crate::s_acks::patch_lease(&d.bytes, 1) } else { None })));
@@ -628,6 +697,22 @@ async fn oversleep(ctx: Ctx, which: usize) {
         let _ = w.write_w_timestamp(sample(1 + (i % 2) as u8, i, 8), None, Time::new((ts / SEC) as i32, (ts % SEC) as u32)).await;
         ctx.sleep_ms(gap).await;
     }
+    if which == 5 {
+        ctx.blackhole(1, true);
+        for i in 4..7u32 {
+            let t0 = ctx.now();
+            let r = w.write(sample(1, i, 8), None).await;
+            let el = (ctx.now() - t0) / MS;
+            ctx.obs(format!("write {i} -> {:?} after {el} ms", r.as_ref().map(|_| ())));
+            // second clause of the property: Timeout no later than max_blocking_time plus one poke period
+            if r.is_err() && el > 3_000 + 50 + 5 {
+                ctx.violation("blocked-write/timeout-too-late", format!("a write blocked with max_blocking_time 3 s returned {r:?} after {el} ms"));
+            }
+            if r.is_err() && el < 3_000 {
+                ctx.violation("blocked-write/timeout-too-early", format!("a write blocked with max_blocking_time 3 s returned {r:?} after {el} ms"));
+            }
+        }
+    }
     if which == 4 {
         ctx.blackhole(1, true);
         for i in 4..7u32 {
@@ -640,8 +725,8 @@ async fn oversleep(ctx: Ctx, which: usize) {
 }
 
 pub fn c31(_args: &Args) -> Vec<Scenario> {
-    let names = ["overdue-deadlines", "past-lifespan", "time-filtered-reader", "rejecting-reader", "blocked-write+lease"];
-    (0..5)
+    let names = ["overdue-deadlines", "past-lifespan", "time-filtered-reader", "rejecting-reader", "blocked-write+lease", "everything-pending"];
+    (0..6)
         .map(|k| Scenario::new(format!("C31.{}[]", names[k]), 99, move |ctx| oversleep(ctx, k)).cfg(|c| c.horizon_ms = 30_000).post(worker_sleep_oracle))
         .collect()
 }
